@@ -7,10 +7,11 @@ import X86Model.Driver.Addr
 import X86Model.Driver.Port
 import X86Model.Driver.Interrupts
 import X86Model.Driver.Regs
+import X86Model.Driver.Tlb
 
 open X86 X86.Driver
 
-def allHandlers : List Handler := [handleC05, handleC18, handleC17, handleC16]
+def allHandlers : List Handler := [handleC05, handleC18, handleC17, handleC16, handleC11]
 
 def dispatch : Handler := fun cfg op a impl =>
   allHandlers.firstM (fun h => h cfg op a impl)
